@@ -26,6 +26,7 @@ import SJ.Drv.Readers
 import SJ.Drv.C19Seq
 import SJ.Drv.C10Raw
 import SJ.Drv.C20Any
+import SJ.Drv.C04Sci
 /-!
 `sjdriver` — reads case lines `op args… => impl-observation` on stdin, runs the Lean model and the
 executable specification on each, prints
@@ -53,6 +54,7 @@ def allHandlers : List (String × Handler) :=
     C15.handlers,
     C16.handlers,
     C04.handlers,
+    C04Sci.handlers,
     Typed.handlers,
     C07.handlers,
     C16x.handlers,
